@@ -26,6 +26,7 @@ structure TInv (p : Params) (st : Store) (i : Nat) (t : Thread) : Prop where
   act : (t.pc = .checked ∨ t.pc = .decided ∨ t.pc = .created ∨ t.pc = .rollback) →
             t.kind = .activate ∧ t.loc.TargetClientID = p.tc ∧ t.loc.TargetAddress = p.ta
   act2 : (t.pc = .decided ∨ t.pc = .created) → t.loc.IsActivated = true ∧ t.loc.ActivatedBy = some t.listener
+  locEq : t.pc = .checked → t.loc = st.code
   rev : t.pc = .revUpd → t.kind = .revoke ∧ t.loc.IsRevoked = true ∧ t.loc.TargetClientID = p.tc ∧ t.loc.TargetAddress = p.ta
   resOk : ∀ m, t.res = some (.ok m) → st.okMap = some m ∧ m.owner = i ∧ t.kind = .activate ∧
             m.tup = (t.listener, t.laddr, p.tc, p.ta) ∧ (t.pc = .releasing ∨ t.pc = .done)
@@ -405,6 +406,7 @@ theorem TInv.frame {p st st' j tj} (h : TInv p st j tj) (hcs : tj.pc.inCS = fals
   · intro hc; rcases hc with hc | hc | hc | hc <;> simp [hc, Pc.inCS] at hcs
   · intro hc; rcases hc with hc | hc <;> simp [hc, Pc.inCS] at hcs
   · intro hc; simp [hc, Pc.inCS] at hcs
+  · intro hc; simp [hc, Pc.inCS] at hcs
   · intro m hm
     have := hr1 m hm
     rcases h2 with h2 | h2
@@ -484,9 +486,10 @@ theorem inv_create {p c} (h : Inv p c) : Inv p (step .repaired p c .create) := b
       · simp
       · simp
     · intro i t hi
-      have ⟨a1, a2, a3, a4, a5, a6, a7, a8⟩ := h.t i t hi
-      refine ⟨a1, ?_, a3, a4, a5, a6, a7, a8⟩
-      intro hcr; have := a2 hcr; simp_all
+      have ⟨a1, a2, a3, a4, a5, a6, a7, a8, a9⟩ := h.t i t hi
+      refine ⟨a1, ?_, a3, a4, a5, ?_, a7, a8, a9⟩
+      · intro hcr; have := a2 hcr; simp_all
+      · intro hcr; have := a2 (by simp [hcr, Pc.critical]); simp_all
 
 theorem inv_expire {p c} (h : Inv p c) : Inv p (step .repaired p c .expire) := by
   simp only [step]
@@ -509,8 +512,8 @@ theorem inv_expire {p c} (h : Inv p c) : Inv p (step .repaired p c .expire) := b
         · right; exact h
       · intro hp; simp at hp; exact h7 hp.1
     · intro i t hi
-      have ⟨a1, a2, a3, a4, a5, a6, a7, a8⟩ := h.t i t hi
-      exact ⟨a1, a2, a3, a4, a5, a6, a7, a8⟩
+      have ⟨a1, a2, a3, a4, a5, a6, a7, a8, a9⟩ := h.t i t hi
+      exact ⟨a1, a2, a3, a4, a5, a6, a7, a8, a9⟩
   · exact h
 
 theorem inv_step {p c} (e : Ev) (h : Inv p c) : Inv p (step .repaired p c e) := by
